@@ -84,12 +84,73 @@ def cfgs(tier):
     return cs
 
 
+def inproc_opts(cfg, regexp=None):
+    o = {"numbers": cfg.num, "booleans": cfg.bool, "ips": cfg.ips, "namespaces": cfg.ns, "eager": [l3.EAGER_NS] if cfg.eager else None,
+         "regexp": regexp or ""}
+    if cfg.replacement is not None:
+        o["replacement"] = cfg.replacement
+    return o
+
+
+def after_mode_switch(W, chunk_no, cases, per_case, cfgs, workdir, res):
+    """'... as well as in-process': one process that first runs the lines in selective mode (--redactFieldsRegexp with an expression no
+    field matches), then in the full-redaction flag sets.  Whatever the first runs leave behind in the process (caches, tables patched in
+    place), a client literal that the fresh CLI process removes must not come out of the warmed-up process."""
+    import json, os
+    if chunk_no % 2 or not W["b"].get("inproc") or not cases:
+        return
+
+    class B:
+        pass
+    b = B()
+    b.inproc, b.root = W["b"]["inproc"], W["b"]["root"]
+    inp = os.path.join(workdir, "ms.in")
+    with open(inp, "w", encoding="utf-8") as f:
+        f.write("\n".join(c[4] for c in cases) + "\n")
+    full = [c for c in cfgs if not c.re and not c.encrypt]
+    reqs = [{"op": "redact", "args": {"opts": inproc_opts(l3.Cfg("warm"), regexp="^(zzsecretA|nomatch[0-9]+)$"), "in": inp, "out": os.path.join(workdir, "ms.warm")}},
+            {"op": "redact", "args": {"opts": inproc_opts(l3.Cfg("warm2", num=True, bool=True), regexp="(?i)^NOMATCH$"), "in": inp, "out": os.path.join(workdir, "ms.warm2")}}]
+    for c in full:
+        reqs.append({"op": "redact", "args": {"opts": inproc_opts(c), "in": inp, "out": os.path.join(workdir, "ms." + c.name)}})
+    try:
+        common.run_inproc(b, reqs)
+    except common.Infra:
+        return
+    for c in full:
+        try:
+            outs = [json.loads(l) for l in open(os.path.join(workdir, "ms." + c.name), encoding="utf-8")]
+        except Exception:
+            continue
+        for gid, (rec, v_, tree, leaves, text, fam) in enumerate(cases):
+            if gid >= len(outs) or "o" not in outs[gid]:
+                continue
+            r = per_case[gid].get(c.name)
+            if r is None or r.raw is None or not l3.is_gated(tree):
+                continue
+            raw = outs[gid]["o"]
+            res["evals"] += 1
+            if raw == r.raw:
+                continue
+            for lf in leaves:
+                if lf.lab != "user" or not lf.token or not l3.in_zone(lf.path):
+                    continue
+                if lf.node[0] == 'num' and not c.num:
+                    continue
+                if lf.node[0] not in ('str', 'num'):
+                    continue
+                if lf.token in raw and lf.token not in r.raw:
+                    l3.add_violation(res, "in one process, after runs in --redactFieldsRegexp mode, a %s literal survives full redaction at %s/%s flags=%s" % (
+                        "numeric" if lf.node[0] == 'num' else "string", lf.path[1], l3.abstract_path(lf.path[2:]), " ".join(c.flags())), r,
+                        {"in_process_output_after_selective_runs": raw[:4000], "token": lf.token})
+                    break
+
+
 def run(tier):
     v = common.Verdict(PID, tier, "model_checking")
     b = common.build()
     cs = cfgs(tier)
     vocab_fields, table_drift = l3.vocabulary_fields(b)
-    rp = l3.Replay(b, v, cs, "checks.c01:judge", variants=2 if tier == "quick" else 3, pad_arrays=True)
+    rp = l3.Replay(b, v, cs, "checks.c01:judge", variants=2 if tier == "quick" else 3, pad_arrays=True, after="checks.c01:after_mode_switch")
     cov = l3.EdgeCoverage(rp.sink)
     dump = l3.grammar_dump()
     all_edges = l3.grammar_edges(dump)
